@@ -54,6 +54,7 @@ type tcase struct {
 	PkgForm string `json:"pkg_form,omitempty"` // whole package reached through a symlinked directory, handler given a relative root
 
 	WatchRounds []watchRound `json:"watch_rounds,omitempty"` // replay of the watch-mode CLI scenario instead
+	FaultHist   []faultStep  `json:"fault_hist,omitempty"`   // replay of a late-failure history instead
 
 	alive  bool
 	cls    []class
@@ -780,7 +781,7 @@ func parses(src string) bool {
 
 // Run is the C16 check.
 func Run(c *core.Ctx) {
-	c.Rule = "case = one .templ file followed through versions T0..Tn (n<=4) by the real FSEventHandler(devMode) in-process; per version: dev-mode bytes == normal bytes of the binary built from it (clause 1, x 6 argument vectors); per window of edits all classified GoUpdated=false: old binary + new text file == fresh build (clause 2). Additionally: (a) large literals: programs whose merged static text between two expressions is 80 KB / 300 KB (base64 image, svg path, script blob) in clause 1; (b) burst: old binaries render a subset back-to-back in a loop while the edit is handled and the text file is published, verdict = last of 5 passes right after (no pause introduced) must equal the fresh build; (c) watch CLI: real `templ generate -watch -cmd` subprocess, rounds of (Go-changing save, text-only save a few ms later), decided from debug-log order: a logged update of the Go-changing file must be followed by 'Executing command' before the round's final reload. Groups: matrix = every ordered pair of 12 expression positions x 5 expression types whose T compiles, + 13 control-flow structure witnesses; hostile = static text classes x positions; random = seeded programs + edit catalogue. non-trivial = (T,T') windows classified 'no recompilation', distinct by source hash"
+	c.Rule = "case = one .templ file followed through versions T0..Tn (n<=4) by the real FSEventHandler(devMode) in-process; per version: dev-mode bytes == normal bytes of the binary built from it (clause 1, x 6 argument vectors); per window of edits all classified GoUpdated=false: old binary + new text file == fresh build (clause 2). Additionally: (a) large literals: programs whose merged static text between two expressions is 80 KB / 300 KB (base64 image, svg path, script blob) in clause 1; (b) burst: old binaries render a subset back-to-back in a loop while the edit is handled and the text file is published, verdict = last of 5 passes right after (no pause introduced) must equal the fresh build; (c) watch CLI: real `templ generate -watch -cmd` subprocess, rounds of (Go-changing save, text-only save a few ms later), decided from debug-log order: a logged update of the Go-changing file must be followed by 'Executing command' before the round's final reload; (d) late failures: the handler with source-map visualisations on, seeded histories in which the visualisation file is blocked by a directory or the context is cancelled at some steps (generate() fails after the Go and text files were written), result flags honoured with or without an error as cmd.go does: after every step the marker expressions of the Go file on disk must be those at the last step that reported GoUpdated. Groups: matrix = every ordered pair of 12 expression positions x 5 expression types whose T compiles, + 13 control-flow structure witnesses; hostile = static text classes x positions; random = seeded programs + edit catalogue. non-trivial = (T,T') windows classified 'no recompilation', distinct by source hash"
 	c.Assume("text-file and template mtimes are set explicitly to strictly increasing instants in 2001, so the runtime's 'modified <100ms ago' cache shortcut never applies; behaviour inside that 100ms window is not examined")
 	c.Assume("rendered bytes and the presence of a render error are compared, not error messages (they carry source positions)")
 	txtRoot := corpus.Scratch("c16txt")
@@ -791,6 +792,11 @@ func Run(c *core.Ctx) {
 		c.LoadReplay(&tc)
 		if len(tc.WatchRounds) > 0 {
 			watchScenario(c, tc.WatchRounds)
+			c.NontrivialN(1)
+			return
+		}
+		if len(tc.FaultHist) > 0 {
+			faultScenario(c, [][]faultStep{tc.FaultHist})
 			c.NontrivialN(1)
 			return
 		}
@@ -808,6 +814,9 @@ func Run(c *core.Ctx) {
 
 	// ---- the watch-mode CLI itself: debounce batches and the rebuild decision
 	watchScenario(c, watchRounds(c.Rand("watch"), c.Pick(10, 40)))
+
+	// ---- late failures of generate() under --source-map-visualisations
+	faultScenario(c, faultHistories(c.Rand("fault"), c.Pick(120, 1500)))
 
 	matrixFailed := map[string]bool{}
 	nBatches := c.Pick(1, 30)
